@@ -12,8 +12,8 @@ git apply /verif/seeded/$id/patch.diff || { echo "PATCH DOES NOT APPLY"; exit 1;
 echo "--- with change: existing suite (jobs limited: the udp socket tests are timing sensitive under load)"
 cargo nextest run --workspace --offline --no-fail-fast --cargo-profile test-fast -j 4 -E 'not binary(seeded_demo)' 2>&1 | grep -E "Summary|FAIL" | head -5
 echo "--- with change: demo (expect failure)"
-RUSTFLAGS="$flags" cargo nextest run --offline --no-fail-fast --cargo-profile test-fast -p $pkg -E 'binary(seeded_demo)' 2>&1 | grep -E "Summary|FAIL" | head -5
+RUSTFLAGS="$flags" cargo nextest run --offline --no-fail-fast --cargo-profile test-fast -p $pkg $DEMO_ARGS -E 'binary(seeded_demo)' 2>&1 | grep -E "Summary|FAIL" | head -5
 git apply -R /verif/seeded/$id/patch.diff
 echo "--- without change: demo (expect pass)"
-RUSTFLAGS="$flags" cargo nextest run --offline --no-fail-fast --cargo-profile test-fast -p $pkg -E 'binary(seeded_demo)' 2>&1 | grep -E "Summary|FAIL" | head -5
+RUSTFLAGS="$flags" cargo nextest run --offline --no-fail-fast --cargo-profile test-fast -p $pkg $DEMO_ARGS -E 'binary(seeded_demo)' 2>&1 | grep -E "Summary|FAIL" | head -5
 git status --short | head -5
